@@ -865,7 +865,7 @@ func main() {
 				cl.Dispatch(toArgv(c))
 			}
 		}
-		runTx := func(cl *redisemu.VerifClient, pings int) string {
+		runTx := func(cl *redisemu.VerifClient, pings int, beforeExec func()) string {
 			do := func(a ...string) string { r, _ := cl.Dispatch(toArgv(a)); return string(r) }
 			do("MULTI")
 			do("HGET", "h", "f")
@@ -882,6 +882,9 @@ func main() {
 			do("SET", "n", "50")
 			do("RPUSH", "l", "q")
 			do("SADD", "st", "z")
+			if beforeExec != nil {
+				beforeExec()
+			}
 			r := do("EXEC")
 			// the replies of the reads at the head and of the writes at the tail; the PONGs in between are dropped
 			parts := strings.Split(r, "+PONG\r\n")
@@ -911,13 +914,13 @@ func main() {
 				setup(a)
 				var o outcome
 				if txFirst {
-					o.tx = runTx(a, 3)
+					o.tx = runTx(a, 3, nil)
 					r, _ := b.Dispatch(toArgv(x))
 					o.x = string(r)
 				} else {
 					r, _ := b.Dispatch(toArgv(x))
 					o.x = string(r)
-					o.tx = runTx(a, 3)
+					o.tx = runTx(a, 3, nil)
 				}
 				o.final = observe(a)
 				return o
@@ -935,11 +938,10 @@ func main() {
 				started := make(chan struct{})
 				go func() {
 					defer wg.Done()
-					close(started)
-					got.tx = runTx(a, 30000)
+					got.tx = runTx(a, 30000, func() { close(started) })
 				}()
 				<-started
-				time.Sleep(time.Duration(8+rep*4) * time.Millisecond) // the EXEC with its 30000 PINGs is under way
+				time.Sleep(time.Duration(1+rep*3) * time.Millisecond) // the EXEC with its 30000 PINGs is under way
 				got.x = do(b, x...)
 				wg.Wait()
 				got.final = observe(a)
